@@ -1,14 +1,437 @@
-//! C07 — stub, to be implemented.
+//! C07 — a rejected configuration command leaves no trace; an accepted one changes only what it names.
+//!
+//! modelsim tier on `sozu_command_lib::state::ConfigState::dispatch`: seeded command histories (cfggen)
+//! with a high rate of *partly* invalid commands. After every command the whole configuration is compared
+//! structurally with its pre-image.
+//!
+//! Reference model (independent of the code under test):
+//! * `Err`  ⇒ every map except `request_counts` equals its pre-image, including bucket presence.
+//! * `Ok`   ⇒ frame rule: with the command's *footprint* (the object(s) the command names, derived from the
+//!   request alone) masked out of both pre- and post-state, the two are equal; for listener patches and
+//!   (de)activation the footprint is field-level (only fields present in the patch may differ); plus the
+//!   verb's documented postcondition (added object present as given, removed object absent, …).
 #![allow(dead_code)]
-use serde_json::Value;
+use std::collections::{BTreeMap, BTreeSet};
+use std::net::SocketAddr;
+
+use serde_json::{json, Value};
+use sozu_command_lib::proto::command::{request::RequestType, PathRule, Request, SocketAddress};
+use sozu_command_lib::state::{ConfigState, StateError};
+
+use super::cfggen::{self, delta_sig, state_delta, to_sockaddr, GenOpts};
 use crate::framework::*;
+use crate::prng::{Prng, TraceHash};
+use crate::world::{SchedCfg, World};
 
 pub struct C07;
 
+pub fn err_name(e: &StateError) -> String {
+    match e {
+        StateError::EmptyRequest => "EmptyRequest".into(),
+        StateError::NoChange => "NoChange".into(),
+        StateError::UndispatchableRequest => "UndispatchableRequest".into(),
+        StateError::NotFound { kind, .. } => format!("NotFound:{kind:?}"),
+        StateError::Exists { kind, .. } => format!("Exists:{kind:?}"),
+        StateError::WrongFieldValue(_) => "WrongFieldValue".into(),
+        StateError::AddCertificate(c) => format!("AddCertificate:{}", cert_err(c)),
+        StateError::RemoveCertificate(_) => "RemoveCertificate".into(),
+        StateError::ReplaceCertificate(_) => "ReplaceCertificate".into(),
+        StateError::FrontendConversion { .. } => "FrontendConversion".into(),
+        StateError::FileError(_) => "FileError".into(),
+        StateError::InvalidValue { field, .. } => format!("InvalidValue:{field}"),
+    }
+}
+fn cert_err(c: &sozu_command_lib::certificate::CertificateError) -> &'static str {
+    use sozu_command_lib::certificate::CertificateError as E;
+    match c { E::ParsePEMCertificate(_) => "pem", E::ParseX509Certificate(_) => "x509", E::InvalidTlsVersion(_) => "tls_version", E::InvalidFingerprint(_) => "fingerprint", E::LoadFile { .. } => "file", E::DecodeError(_) => "hex" }
+}
+
+// ------------------------------------------------------------------------------ reference model
+
+/// What a command names (derived from the request only).
+#[derive(Clone, Debug)]
+enum Foot {
+    Nothing,
+    Cluster(String),
+    /// kind: 0 http, 1 https, 2 tcp, 3 udp
+    Listener(i32, SocketAddr),
+    HttpFront { https: bool, address: SocketAddr, hostname: String, path: PathRule, method: Option<String> },
+    L4Front { udp: bool, cluster: String, address: SocketAddr },
+    Backend { cluster: String, id: String, address: SocketAddr },
+    /// certificates of one address (item-level rules are checked separately)
+    Certs(SocketAddr),
+}
+
+fn footprint(t: &RequestType) -> Foot {
+    let a = |s: &SocketAddress| to_sockaddr(s);
+    match t {
+        RequestType::AddCluster(c) => Foot::Cluster(c.cluster_id.clone()),
+        RequestType::RemoveCluster(id) | RequestType::RemoveHealthCheck(id) => Foot::Cluster(id.clone()),
+        RequestType::SetHealthCheck(s) => Foot::Cluster(s.cluster_id.clone()),
+        RequestType::AddHttpListener(l) => Foot::Listener(0, a(&l.address)),
+        RequestType::AddHttpsListener(l) => Foot::Listener(1, a(&l.address)),
+        RequestType::AddTcpListener(l) => Foot::Listener(2, a(&l.address)),
+        RequestType::AddUdpListener(l) => Foot::Listener(3, a(&l.address)),
+        RequestType::RemoveListener(r) => Foot::Listener(r.proxy, a(&r.address)),
+        RequestType::ActivateListener(r) => Foot::Listener(r.proxy, a(&r.address)),
+        RequestType::DeactivateListener(r) => Foot::Listener(r.proxy, a(&r.address)),
+        RequestType::UpdateHttpListener(p) => Foot::Listener(0, a(&p.address)),
+        RequestType::UpdateHttpsListener(p) => Foot::Listener(1, a(&p.address)),
+        RequestType::UpdateTcpListener(p) => Foot::Listener(2, a(&p.address)),
+        RequestType::UpdateUdpListener(p) => Foot::Listener(3, a(&p.address)),
+        RequestType::AddHttpFrontend(f) | RequestType::RemoveHttpFrontend(f) => Foot::HttpFront { https: false, address: a(&f.address), hostname: f.hostname.clone(), path: f.path.clone(), method: f.method.clone() },
+        RequestType::AddHttpsFrontend(f) | RequestType::RemoveHttpsFrontend(f) => Foot::HttpFront { https: true, address: a(&f.address), hostname: f.hostname.clone(), path: f.path.clone(), method: f.method.clone() },
+        RequestType::AddTcpFrontend(f) | RequestType::RemoveTcpFrontend(f) => Foot::L4Front { udp: false, cluster: f.cluster_id.clone(), address: a(&f.address) },
+        RequestType::AddUdpFrontend(f) | RequestType::RemoveUdpFrontend(f) => Foot::L4Front { udp: true, cluster: f.cluster_id.clone(), address: a(&f.address) },
+        RequestType::AddBackend(b) => Foot::Backend { cluster: b.cluster_id.clone(), id: b.backend_id.clone(), address: a(&b.address) },
+        RequestType::RemoveBackend(b) => Foot::Backend { cluster: b.cluster_id.clone(), id: b.backend_id.clone(), address: a(&b.address) },
+        RequestType::AddCertificate(c) => Foot::Certs(a(&c.address)),
+        RequestType::RemoveCertificate(c) => Foot::Certs(a(&c.address)),
+        RequestType::ReplaceCertificate(c) => Foot::Certs(a(&c.address)),
+        _ => Foot::Nothing,
+    }
+}
+
+/// Copy of `s` with the footprint's objects removed (and the footprint's bucket dropped when left empty).
+fn mask(s: &ConfigState, f: &Foot) -> ConfigState {
+    let mut m = s.clone();
+    match f {
+        Foot::Nothing => {}
+        Foot::Cluster(id) => { m.clusters.remove(id); }
+        Foot::Listener(k, a) => match k { 0 => { m.http_listeners.remove(a); } 1 => { m.https_listeners.remove(a); } 2 => { m.tcp_listeners.remove(a); } 3 => { m.udp_listeners.remove(a); } _ => {} },
+        Foot::HttpFront { https, address, hostname, path, method } => {
+            let map = if *https { &mut m.https_fronts } else { &mut m.http_fronts };
+            map.retain(|_, v| !(v.address == *address && v.hostname == *hostname && v.path == *path && v.method == *method));
+        }
+        Foot::L4Front { udp, cluster, address } => {
+            if *udp {
+                if let Some(b) = m.udp_fronts.get_mut(cluster) { b.retain(|x| x.address != *address); if b.is_empty() { m.udp_fronts.remove(cluster); } }
+            } else if let Some(b) = m.tcp_fronts.get_mut(cluster) { b.retain(|x| x.address != *address); if b.is_empty() { m.tcp_fronts.remove(cluster); } }
+        }
+        Foot::Backend { cluster, id, address } => {
+            if let Some(b) = m.backends.get_mut(cluster) { b.retain(|x| !(x.backend_id == *id && x.address == *address)); if b.is_empty() { m.backends.remove(cluster); } }
+        }
+        Foot::Certs(a) => { m.certificates.remove(a); }
+    }
+    m
+}
+
+fn set_fields<T: serde::Serialize>(patch: &T) -> BTreeSet<String> {
+    let v = serde_json::to_value(patch).unwrap_or_default();
+    let mut out = BTreeSet::new();
+    if let Some(m) = v.as_object() {
+        for (k, x) in m {
+            if k == "address" { continue; }
+            let unset = x.is_null() || x.as_object().is_some_and(|o| o.is_empty());
+            if !unset { out.insert(k.clone()); }
+        }
+    }
+    out
+}
+fn json_fields_changed<T: serde::Serialize>(a: &T, b: &T) -> BTreeSet<String> {
+    let (va, vb) = (serde_json::to_value(a).unwrap_or_default(), serde_json::to_value(b).unwrap_or_default());
+    let mut out = BTreeSet::new();
+    if let (Some(ma), Some(mb)) = (va.as_object(), vb.as_object()) {
+        for k in ma.keys().chain(mb.keys()) { if ma.get(k) != mb.get(k) { out.insert(k.clone()); } }
+    }
+    out
+}
+
+/// Documented patch semantics ("only fields that are `Some` in the patch will be applied"): every field the
+/// patch names must hold the patch's value afterwards. Returns the names of fields that do not.
+fn patch_fields_not_stored<P: serde::Serialize, L: serde::Serialize>(patch: &P, post: &L) -> Vec<String> {
+    let (pv, lv) = (serde_json::to_value(patch).unwrap_or_default(), serde_json::to_value(post).unwrap_or_default());
+    let mut out = Vec::new();
+    let Some(pm) = pv.as_object() else { return out };
+    for (k, x) in pm {
+        if k == "address" || x.is_null() { continue; }
+        let ok = match k.as_str() {
+            // per status: an empty value preserves, a non-empty value replaces
+            "answers" => x.as_object().is_none_or(|m| m.iter().all(|(code, body)| body.as_str().is_some_and(|b| b.is_empty()) || lv["answers"].get(code) == Some(body))),
+            // per field merge
+            "http_answers" => {
+                if let Some(m) = x.as_object() { for (f, v) in m { if !v.is_null() && lv["http_answers"].get(f) != Some(v) { out.push(format!("http_answers.{f}")); } } }
+                true
+            }
+            "alpn_protocols" => lv["alpn_protocols"] == x["values"],
+            _ => lv.get(k) == Some(x),
+        };
+        if !ok { out.push(k.clone()); }
+    }
+    out
+}
+
+/// Checks on an accepted command. Returns (class, key, detail) triples.
+fn check_accepted(t: &RequestType, verb0: &str, pre: &ConfigState, post: &ConfigState) -> Vec<(String, String, String)> {
+    let mut v: Vec<(String, String, String)> = Vec::new();
+    // plan-side trigger feature: a frontend whose path rule kind is not a known enum value
+    let verb_s = match t {
+        RequestType::AddHttpFrontend(f) | RequestType::RemoveHttpFrontend(f) | RequestType::AddHttpsFrontend(f) | RequestType::RemoveHttpsFrontend(f) if !(0..=2).contains(&f.path.kind) => format!("{verb0}+unknown_path_kind"),
+        _ => verb0.to_string(),
+    };
+    let verb = verb_s.as_str();
+    let foot = footprint(t);
+    // frame rule
+    let d = state_delta(&mask(pre, &foot), &mask(post, &foot), true);
+    if !d.is_empty() {
+        v.push(("accepted_outside_footprint".into(), format!("{verb}|{}", delta_sig(&d)), format!("accepted {verb} changed objects it does not name: {}", d.iter().take(4).map(|x| x.describe()).collect::<Vec<_>>().join("; "))));
+    }
+    let wrong = |what: &str, detail: String| ("accepted_wrong_effect".to_string(), format!("{verb}|{what}"), detail);
+    // field-level footprint of patches / activation; postconditions
+    macro_rules! patch_check { ($map:ident, $p:expr) => {{
+        let a = to_sockaddr(&$p.address);
+        match (pre.$map.get(&a), post.$map.get(&a)) {
+            (Some(x), Some(y)) => {
+                let named = set_fields($p);
+                let changed = json_fields_changed(x, y);
+                let extra: Vec<&String> = changed.iter().filter(|f| !named.contains(*f)).collect();
+                if !extra.is_empty() { v.push(("accepted_field_outside_patch".into(), format!("{verb}|{}", extra.iter().map(|s| s.as_str()).collect::<Vec<_>>().join(",")), format!("patch names {named:?} but fields {extra:?} changed"))); }
+                for f in patch_fields_not_stored($p, y) { v.push(("accepted_wrong_effect".into(), format!("{verb}|patch_field_not_stored:{f}"), format!("accepted patch of listener {a} names field `{f}` but the stored listener does not hold the patch's value"))); }
+            }
+            (None, _) => v.push(wrong("patched_missing_listener", format!("patch of absent listener {a} accepted"))),
+            (Some(_), None) => v.push(wrong("patch_removed_listener", format!("listener {a} vanished"))),
+        }
+    }}; }
+    macro_rules! added_listener { ($map:ident, $l:expr) => {{
+        let a = to_sockaddr(&$l.address);
+        if pre.$map.contains_key(&a) { v.push(wrong("duplicate_listener_accepted", format!("{a} existed"))); }
+        if post.$map.get(&a) != Some($l) { v.push(wrong("listener_not_stored_as_given", format!("{a}"))); }
+    }}; }
+    macro_rules! activation { ($r:expr, $want:expr) => {{
+        let a = to_sockaddr(&$r.address);
+        macro_rules! one { ($map:ident) => {{
+            match (pre.$map.get(&a), post.$map.get(&a)) {
+                (Some(x), Some(y)) => {
+                    if y.active != $want { v.push(wrong("active_flag", format!("{a} active={}", y.active))); }
+                    let ch = json_fields_changed(x, y);
+                    if ch.iter().any(|f| f != "active") { v.push(("accepted_field_outside_patch".into(), format!("{verb}|{}", ch.into_iter().collect::<Vec<_>>().join(",")), "activation changed other fields".into())); }
+                }
+                _ => v.push(wrong("missing_listener", format!("{a}"))),
+            }
+        }}; }
+        match $r.proxy { 0 => one!(http_listeners), 1 => one!(https_listeners), 2 => one!(tcp_listeners), 3 => one!(udp_listeners), _ => v.push(wrong("unknown_listener_type_accepted", format!("proxy={}", $r.proxy))) }
+    }}; }
+    match t {
+        RequestType::AddCluster(c) => { if post.clusters.get(&c.cluster_id) != Some(c) { v.push(wrong("cluster_not_stored_as_given", c.cluster_id.clone())); } }
+        RequestType::RemoveCluster(id) => { if post.clusters.contains_key(id) || !pre.clusters.contains_key(id) { v.push(wrong("remove_cluster", id.clone())); } }
+        RequestType::SetHealthCheck(s) => match (pre.clusters.get(&s.cluster_id), post.clusters.get(&s.cluster_id)) {
+            (Some(x), Some(y)) => {
+                if y.health_check.as_ref() != Some(&s.config) { v.push(wrong("health_check_not_stored", s.cluster_id.clone())); }
+                let ch = json_fields_changed(x, y);
+                if ch.iter().any(|f| f != "health_check") { v.push(("accepted_field_outside_patch".into(), format!("{verb}|{}", ch.into_iter().collect::<Vec<_>>().join(",")), "SetHealthCheck changed other cluster fields".into())); }
+            }
+            _ => v.push(wrong("missing_cluster", s.cluster_id.clone())),
+        },
+        RequestType::RemoveHealthCheck(id) => match (pre.clusters.get(id), post.clusters.get(id)) {
+            (Some(x), Some(y)) => {
+                if y.health_check.is_some() { v.push(wrong("health_check_not_removed", id.clone())); }
+                let ch = json_fields_changed(x, y);
+                if ch.iter().any(|f| f != "health_check") { v.push(("accepted_field_outside_patch".into(), format!("{verb}|{}", ch.into_iter().collect::<Vec<_>>().join(",")), "RemoveHealthCheck changed other cluster fields".into())); }
+            }
+            _ => v.push(wrong("missing_cluster", id.clone())),
+        },
+        RequestType::AddHttpListener(l) => added_listener!(http_listeners, l),
+        RequestType::AddHttpsListener(l) => added_listener!(https_listeners, l),
+        RequestType::AddTcpListener(l) => added_listener!(tcp_listeners, l),
+        RequestType::AddUdpListener(l) => added_listener!(udp_listeners, l),
+        RequestType::RemoveListener(r) => {
+            let a = to_sockaddr(&r.address);
+            let (was, is) = match r.proxy { 0 => (pre.http_listeners.contains_key(&a), post.http_listeners.contains_key(&a)), 1 => (pre.https_listeners.contains_key(&a), post.https_listeners.contains_key(&a)), 2 => (pre.tcp_listeners.contains_key(&a), post.tcp_listeners.contains_key(&a)), 3 => (pre.udp_listeners.contains_key(&a), post.udp_listeners.contains_key(&a)), _ => (false, true) };
+            if !was || is { v.push(wrong("remove_listener", format!("{a} proxy={} was={was} is={is}", r.proxy))); }
+        }
+        RequestType::ActivateListener(r) => activation!(r, true),
+        RequestType::DeactivateListener(r) => activation!(r, false),
+        RequestType::UpdateHttpListener(p) => patch_check!(http_listeners, p),
+        RequestType::UpdateHttpsListener(p) => patch_check!(https_listeners, p),
+        RequestType::UpdateTcpListener(p) => patch_check!(tcp_listeners, p),
+        RequestType::UpdateUdpListener(p) => patch_check!(udp_listeners, p),
+        RequestType::AddHttpFrontend(f) | RequestType::AddHttpsFrontend(f) => {
+            let https = matches!(t, RequestType::AddHttpsFrontend(_));
+            let (mp, mq) = if https { (&pre.https_fronts, &post.https_fronts) } else { (&pre.http_fronts, &post.http_fronts) };
+            let a = to_sockaddr(&f.address);
+            let same = |x: &&sozu_command_lib::response::HttpFrontend| x.address == a && x.hostname == f.hostname && x.path == f.path && x.method == f.method;
+            if mp.values().any(|x| same(&x)) { v.push(wrong("duplicate_frontend_accepted", f.to_string())); }
+            let stored: Vec<_> = mq.values().filter(same).collect();
+            if stored.len() != 1 || stored[0].cluster_id != f.cluster_id || stored[0].tags.clone().unwrap_or_default() != f.tags || stored[0].headers != f.headers || stored[0].required_auth != f.required_auth || stored[0].redirect != f.redirect || stored[0].hsts != f.hsts {
+                v.push(wrong("frontend_not_stored_as_given", f.to_string()));
+            }
+        }
+        RequestType::RemoveHttpFrontend(f) | RequestType::RemoveHttpsFrontend(f) => {
+            let https = matches!(t, RequestType::RemoveHttpsFrontend(_));
+            let (mp, mq) = if https { (&pre.https_fronts, &post.https_fronts) } else { (&pre.http_fronts, &post.http_fronts) };
+            let a = to_sockaddr(&f.address);
+            let same = |x: &sozu_command_lib::response::HttpFrontend| x.address == a && x.hostname == f.hostname && x.path == f.path && x.method == f.method;
+            if !mp.values().any(same) || mq.values().any(same) { v.push(wrong("remove_frontend", f.to_string())); }
+        }
+        RequestType::AddTcpFrontend(f) => {
+            let a = to_sockaddr(&f.address);
+            let n = post.tcp_fronts.get(&f.cluster_id).map(|b| b.iter().filter(|x| x.address == a && x.tags == f.tags && x.cluster_id == f.cluster_id).count()).unwrap_or(0);
+            if n != 1 { v.push(wrong("tcp_frontend_not_stored_once", format!("{n} copies"))); }
+        }
+        RequestType::AddUdpFrontend(f) => {
+            let a = to_sockaddr(&f.address);
+            let n = post.udp_fronts.get(&f.cluster_id).map(|b| b.iter().filter(|x| x.address == a && x.tags == f.tags && x.cluster_id == f.cluster_id).count()).unwrap_or(0);
+            if n != 1 { v.push(wrong("udp_frontend_not_stored_once", format!("{n} copies"))); }
+        }
+        RequestType::RemoveTcpFrontend(f) => {
+            let a = to_sockaddr(&f.address);
+            let was = pre.tcp_fronts.get(&f.cluster_id).is_some_and(|b| b.iter().any(|x| x.address == a));
+            let is = post.tcp_fronts.get(&f.cluster_id).is_some_and(|b| b.iter().any(|x| x.address == a));
+            if !was || is { v.push(wrong("remove_tcp_frontend", format!("was={was} is={is}"))); }
+        }
+        RequestType::RemoveUdpFrontend(f) => {
+            let a = to_sockaddr(&f.address);
+            let was = pre.udp_fronts.get(&f.cluster_id).is_some_and(|b| b.iter().any(|x| x.address == a));
+            let is = post.udp_fronts.get(&f.cluster_id).is_some_and(|b| b.iter().any(|x| x.address == a));
+            if !was || is { v.push(wrong("remove_udp_frontend", format!("was={was} is={is}"))); }
+        }
+        RequestType::AddBackend(b) => {
+            let a = to_sockaddr(&b.address);
+            let m: Vec<_> = post.backends.get(&b.cluster_id).map(|l| l.iter().filter(|x| x.backend_id == b.backend_id && x.address == a).collect()).unwrap_or_default();
+            if m.len() != 1 || m[0].sticky_id != b.sticky_id || m[0].load_balancing_parameters != b.load_balancing_parameters || m[0].backup != b.backup || m[0].cluster_id != b.cluster_id {
+                v.push(wrong("backend_not_stored_once_as_given", format!("{} copies", m.len())));
+            }
+        }
+        RequestType::RemoveBackend(b) => {
+            let a = to_sockaddr(&b.address);
+            let was = pre.backends.get(&b.cluster_id).is_some_and(|l| l.iter().any(|x| x.backend_id == b.backend_id && x.address == a));
+            let is = post.backends.get(&b.cluster_id).is_some_and(|l| l.iter().any(|x| x.backend_id == b.backend_id && x.address == a));
+            if !was || is { v.push(wrong("remove_backend", format!("was={was} is={is}"))); }
+        }
+        RequestType::AddCertificate(c) => {
+            let a = to_sockaddr(&c.address);
+            let (p, q) = (pre.certificates.get(&a), post.certificates.get(&a));
+            // nothing that was there may go or change; at most one new entry, carrying the given PEM
+            let pk: BTreeMap<_, _> = p.map(|m| m.iter().collect()).unwrap_or_default();
+            let qk: BTreeMap<_, _> = q.map(|m| m.iter().collect()).unwrap_or_default();
+            if pk.iter().any(|(k, x)| qk.get(k) != Some(x)) { v.push(wrong("add_certificate_touched_existing", a.to_string())); }
+            let new: Vec<_> = qk.iter().filter(|(k, _)| !pk.contains_key(*k)).collect();
+            if new.len() > 1 || new.iter().any(|(_, x)| x.certificate != c.certificate.certificate || x.key != c.certificate.key) { v.push(wrong("add_certificate_stored_other", a.to_string())); }
+            if !qk.values().any(|x| x.certificate == c.certificate.certificate) { v.push(wrong("add_certificate_not_stored", a.to_string())); }
+        }
+        RequestType::RemoveCertificate(c) => {
+            let a = to_sockaddr(&c.address);
+            let fp = c.fingerprint.to_lowercase();
+            let pk: BTreeMap<String, _> = pre.certificates.get(&a).map(|m| m.iter().map(|(k, x)| (k.to_string(), x)).collect()).unwrap_or_default();
+            let qk: BTreeMap<String, _> = post.certificates.get(&a).map(|m| m.iter().map(|(k, x)| (k.to_string(), x)).collect()).unwrap_or_default();
+            if qk.contains_key(&fp) { v.push(wrong("remove_certificate_still_there", a.to_string())); }
+            if pk.iter().any(|(k, x)| *k != fp && qk.get(k) != Some(x)) || qk.keys().any(|k| !pk.contains_key(k)) { v.push(wrong("remove_certificate_touched_others", a.to_string())); }
+        }
+        RequestType::ReplaceCertificate(c) => {
+            let a = to_sockaddr(&c.address);
+            let old = c.old_fingerprint.to_lowercase();
+            let pk: BTreeMap<String, _> = pre.certificates.get(&a).map(|m| m.iter().map(|(k, x)| (k.to_string(), x)).collect()).unwrap_or_default();
+            let qk: BTreeMap<String, _> = post.certificates.get(&a).map(|m| m.iter().map(|(k, x)| (k.to_string(), x)).collect()).unwrap_or_default();
+            let newk: Vec<&String> = qk.iter().filter(|(_, x)| x.certificate == c.new_certificate.certificate).map(|(k, _)| k).collect();
+            if newk.is_empty() { v.push(wrong("replace_certificate_new_not_stored", a.to_string())); }
+            if qk.contains_key(&old) && !newk.contains(&&old) { v.push(wrong("replace_certificate_old_still_there", a.to_string())); }
+            if pk.iter().any(|(k, x)| *k != old && !newk.contains(&k) && qk.get(k) != Some(x)) { v.push(wrong("replace_certificate_touched_others", a.to_string())); }
+        }
+        _ => {}
+    }
+    v
+}
+
+// ------------------------------------------------------------------------------------ the property
+
+pub fn generate(seed: u64, tier: Tier) -> Value {
+    let mut rng = Prng::derive(seed, "c07/plan");
+    let mut o = GenOpts::swarm(&mut rng);
+    o.symbolic_certs = true;
+    // C07 wants many partly invalid commands
+    let fam = match rng.below(4) { 0 => { o.partial_pm = 700; o.invalid_pm = 60; "partial_heavy" } 1 => { o.partial_pm = 350; o.invalid_pm = 250; "invalid_heavy" } 2 => { o.reuse_pm = 900; o.partial_pm = 400; "collision_heavy" } _ => "swarm" };
+    let max = match tier { Tier::Quick => 40, Tier::Thorough => 120 };
+    let len = *rng.pick(&[6usize, 12, 20, max]);
+    let ops = cfggen::gen_history(&mut rng, len, &o);
+    json!({"seed": seed, "family": fam, "hash_seed": rng.next_u64(), "ops": cfggen::ops_to_value(&ops)})
+}
+
+struct Out { violations: Vec<Violation>, hash: u64, probes: BTreeMap<String, u64>, rejected: u64, accepted: u64 }
+
+fn run(ops: Vec<Request>, hash_seed: u64) -> Out {
+    crate::netsim::on_fresh_thread(move || {
+        let mut w = World::new(hash_seed, SchedCfg::default());
+        World::install(&mut w);
+        let mut th = TraceHash::new();
+        let mut violations: Vec<Violation> = Vec::new();
+        let mut probes: BTreeMap<String, u64> = BTreeMap::new();
+        let (mut rejected, mut accepted) = (0u64, 0u64);
+        let mut state = ConfigState::new();
+        for (i, r) in ops.iter().enumerate() {
+            let verb = cfggen::verb_name(r);
+            let pre = state.clone();
+            let res = state.dispatch(r);
+            th.mix(i as u64); th.mix_bytes(verb.as_bytes());
+            match &res {
+                Err(e) => {
+                    rejected += 1;
+                    let en = err_name(e);
+                    th.mix_bytes(en.as_bytes());
+                    *probes.entry(format!("rejected/{verb}/{en}")).or_insert(0) += 1;
+                    let d = state_delta(&pre, &state, true);
+                    if !d.is_empty() {
+                        violations.push(Violation::new("rejected_but_mutated", format!("{verb}|{en}|{}", delta_sig(&d)), format!("op #{i} {verb} answered Err({e}) but the configuration changed: {}", d.iter().take(4).map(|x| x.describe()).collect::<Vec<_>>().join("; "))));
+                    }
+                }
+                Ok(()) => {
+                    accepted += 1;
+                    th.mix(1);
+                    *probes.entry(format!("accepted/{verb}")).or_insert(0) += 1;
+                    if let Some(t) = &r.request_type {
+                        for (class, key, detail) in check_accepted(t, verb, &pre, &state) { violations.push(Violation::new(&class, key, format!("op #{i}: {detail}"))); }
+                    }
+                }
+            }
+            th.mix(state_delta(&pre, &state, true).len() as u64);
+        }
+        cfggen::state_hash(&state, &mut th);
+        probes.insert("objects_final".into(), cfggen::count_objects(&state) as u64);
+        World::uninstall();
+        Out { violations, hash: th.0, probes, rejected, accepted }
+    })
+}
+
 impl Property for C07 {
     fn id(&self) -> &'static str { "C07" }
-    fn runs(&self, _tier: Tier) -> u64 { 0 }
-    fn gen_plan(&self, _seed: u64, _tier: Tier) -> Value { Value::Null }
-    fn run_plan(&self, _plan: &Value) -> RunReport { RunReport { harness_error: Some("not implemented".into()), ..Default::default() } }
-    fn descr(&self) -> Descr { Descr { level: "exploration", rule: "", assumptions: vec![], real: vec![], stub: vec![], not_covered: vec![] } }
+    fn runs(&self, tier: Tier) -> u64 { match tier { Tier::Quick => 60_000, Tier::Thorough => 1_200_000 } }
+    fn gen_plan(&self, seed: u64, tier: Tier) -> Value { generate(seed, tier) }
+    fn run_plan(&self, plan: &Value) -> RunReport {
+        let ops = match cfggen::ops_from_value(&plan["ops"]) { Ok(o) => o, Err(e) => return RunReport { harness_error: Some(format!("bad plan: {e}")), ..Default::default() } };
+        let summary = cfggen::summarize_ops(&ops);
+        let o = run(ops, plan["hash_seed"].as_u64().unwrap_or(0));
+        let mut violations = o.violations;
+        let mut seen = BTreeSet::new();
+        violations.retain(|x| seen.insert((x.class.clone(), x.key.clone())));
+        let mut rep = RunReport { seed: plan["seed"].as_u64().unwrap_or(0), family: plan["family"].as_str().unwrap_or("").into(), violations, trace_hash: o.hash, summary, ..Default::default() };
+        rep.nontrivial = o.rejected >= 1 && o.accepted >= 1;
+        rep.probes = o.probes;
+        rep.probes.insert("commands_rejected".into(), o.rejected);
+        rep.probes.insert("commands_accepted".into(), o.accepted);
+        rep
+    }
+    fn shrink(&self, plan: &Value) -> Vec<Value> {
+        cfggen::shrink_ops(&plan["ops"]).into_iter().map(|ops| { let mut p = plan.clone(); p["ops"] = ops; p }).collect()
+    }
+    fn debug_plan(&self, plan: &Value) -> String {
+        let Ok(ops) = cfggen::ops_from_value(&plan["ops"]) else { return "bad plan".into() };
+        let mut s = String::new();
+        let mut st = ConfigState::new();
+        for (i, r) in ops.iter().enumerate() {
+            let pre = st.clone();
+            let res = st.dispatch(r);
+            let d = state_delta(&pre, &st, true);
+            s += &format!("#{i} {} -> {:?}\n   delta: {}\n", cfggen::verb_name(r), res.as_ref().map_err(|e| e.to_string()), d.iter().map(|x| x.describe()).collect::<Vec<_>>().join("; "));
+        }
+        s
+    }
+    fn descr(&self) -> Descr {
+        Descr {
+            level: "exploration",
+            rule: "seeded command histories over every mutating ConfigState verb (swarm: alphabet sizes, verb mix, invalid / partly-invalid / collision rates, hash seed); after every command the full configuration is compared with its pre-image; a run is non-trivial when >=1 command was rejected and >=1 accepted; distinct = distinct (verb, result, delta) trace hashes",
+            assumptions: vec!["release semantics (debug assertions off)", "the census `request_counts` is not configuration and is excluded from equality"],
+            real: vec!["sozu_command_lib::state::ConfigState::dispatch and every handler behind it", "certificate parsing / fingerprinting (x509-parser, sha2)", "proto request types"],
+            stub: vec!["clock", "entropy (HashMap seeds)"],
+            not_covered: vec!["worker tier (live proxies after a FAILURE answer) and main-process tier (scatter only after local accept): need netsim/hubsim configuration scenarios", "whether an accepted patch field is actually applied (only the frame is checked; see report on ignored patch fields)"],
+        }
+    }
 }
